@@ -89,6 +89,12 @@ def main(argv=None) -> int:
             if selftest_summary and selftest_summary.get("failed"):
                 for f in selftest_summary["failed"]:
                     rep.errors.append(f"self-test: {f}")
+            # the agent-made corpora, applied in memory: seeded breaking changes of this property must be reported,
+            # behaviour-preserving patches must not raise anything
+            corpora = selftest.run_patch_corpora(prop, repo)
+            selftest_summary["patch_corpora"] = corpora
+            for f in corpora.get("failed", []):
+                rep.errors.append(f"self-test: {f}")
         except AnalysisError as e:
             rep.errors.append(f"self-test: {e}")
         except Exception as e:
